@@ -1,5 +1,6 @@
 import NemoVerif.Drive.Common
 import NemoVerif.Models.Isolation
+import NemoVerif.Models.IsolationRepaired
 
 namespace NemoVerif.Drive.C15
 open Lean NemoVerif NemoVerif.Drive NemoVerif.Isolation
@@ -160,7 +161,10 @@ def handle (op : String) (j : Json) : Except String Json := do
     let key ← keyFn (← (← j.getObjVal? "which").getStr?)
     let msgs ← msgsOfJson (← j.getObjVal? "msgs")
     let C ← cacheOfJson (← j.getObjVal? "cache")
-    pure (Json.mkObj [("events", evsTo (eventsFor key convTailC C msgs))])
+    let isState := match j.getObjVal? "state" with | .ok (.bool b) => b | _ => false
+    let guarded := match j.getObjVal? "statefix" with | .ok (.bool b) => b | _ => false
+    let ev := if isState then eventsForState guarded key convTailC C [] msgs else eventsFor key convTailC C msgs
+    pure (Json.mkObj [("events", evsTo ev)])
   | "convert" =>
     let a ← (← j.getObjVal? "tails").getArr?
     let tails ← a.toList.mapM msgsOfJson
@@ -209,6 +213,26 @@ def handle (op : String) (j : Json) : Except String Json := do
       ("nested", .bool (nestedOK [] sched)),
       ("abs_calls", callsTo afin.calls),
       ("abs_store", dumpStore fun n => pvalTo (afin.store n))])
+  | "paramsR" =>
+    -- the repaired LLMParams: sections (managers and the parameterless in-flight markers of LLM calls) of several
+    -- tasks on one shared object, run on the label sequence the harness really executed
+    let cfgT ← kvsOfJson' (← j.getObjVal? "cfg")
+    let aa ← (← j.getObjVal? "alts").getArr?
+    let alts ← aa.toList.mapM kvsOfJson'
+    let oa ← (← j.getObjVal? "owners").getArr?
+    let owners ← oa.toList.mapM (·.getNat?)
+    let sa ← (← j.getObjVal? "trace").getArr?
+    let trace ← sa.toList.mapM actOfJson
+    let unia ← (← j.getObjVal? "universe").getArr?
+    let uni ← unia.toList.mapM (·.getNat?)
+    let cfg : Nat → PVal := fun n => ((tableFn cfgT) n).getD none
+    let M : ParamsR.Mgrs PVal := { owner := fun m => owners.getD m m, alt := fun m => alts.getD m [] }
+    let fin := ParamsR.runR M (ParamsR.initR cfg) trace
+    let dump (f : Nat → PVal) := Json.arr (uni.map fun n => Json.arr #[Json.num (JsonNumber.fromNat n), pvalTo (f n)]).toArray
+    pure (Json.mkObj [
+      ("calls", Json.arr (fin.calls.map fun c => Json.arr #[Json.num (JsonNumber.fromNat c.1), dump c.2]).toArray),
+      ("store", dump fin.store),
+      ("open", Json.arr (fin.opn.map fun n => Json.num (JsonNumber.fromNat n)).toArray)])
   | "ctxprog" =>
     let a ← (← j.getObjVal? "prog").getArr?
     let prog ← progOfJson a.toList
